@@ -266,6 +266,10 @@ Fidelity == (pc = "idle") => \A p \in Live : Read(p) = LastOk(hist, p, Initial(p
 
 (* a fault-free update always publishes the new version *)
 CleanUpdateCommits == (pc = "idle" /\ hist # <<>> /\ hist[Len(hist)].f = "none") => hist[Len(hist)].ok
+(* ... so when a fault-free update returns the file holds the owner's latest values -- whatever happened before it, in     *)
+(* particular a FAILED update of the same values (ok ; change ; failed update ; fault-free update of the unchanged state)  *)
+LatestAfterCleanUpdate == (pc = "idle" /\ hist # <<>> /\ hist[Len(hist)].f = "none") =>
+                             Read(hist[Len(hist)].t) = mem[hist[Len(hist)].t]
 
 TypeOK == /\ \A p \in Paths : fs[p].k \in {"missing", "partial", "complete"} /\ fs[p].v \in 0..MaxUpd
           /\ \A p \in Paths : hs[p] \in {"none", "ok", "bad"}
